@@ -37,6 +37,7 @@ type rv struct {
 	// repr selects the library representation.
 	//   list:    eager (NewList) | conv (Go-built sized lazy list) | map (library l.map(e->e), sized lazy)
 	//            | accept (library l.accept(e->true), unsized lazy) | concat (library front+back, unsized lazy)
+	//            | mixed / mixedBack (front+back where exactly one part has a known size)
 	//   map:     lit (listMap, what a map literal produces) | real (RealMap, Go map) | put (AppendMap chain)
 	//            | merge (MergeMap of two halves) | replace (ReplaceMap over a map with other values)
 	//   closure: source text of the closure; id distinguishes separately created closures
@@ -231,6 +232,12 @@ func (bd *builder) build(r *rv) value.Value {
 		case "concat":
 			h := len(items) / 2
 			return bd.must("p+q", []string{"p", "q"}, value.NewList(items[:h:h]...), value.NewList(items[h:]...))
+		case "mixed": // front of unknown size + back of known size
+			h := len(items) / 2
+			return bd.must("p.accept(e->true)+q", []string{"p", "q"}, value.NewList(items[:h:h]...), value.NewList(items[h:]...))
+		case "mixedBack": // front of known size + back of unknown size
+			h := (len(items) + 1) / 2
+			return bd.must("p+q.accept(e->true)", []string{"p", "q"}, value.NewList(items[:h:h]...), value.NewList(items[h:]...))
 		}
 	case kMap:
 		vals := make([]value.Value, len(r.vals))
@@ -304,7 +311,9 @@ func makePool(thorough bool) (pool []*rv, numIdx, strIdx []int, curated int) {
 	add(vf(0), vf(math.Copysign(0, -1)), vf(1), vf(1.5), vf(-1), vf(2),
 		vf(math.Nextafter(1, 2)), vf(math.Nextafter(1, 0)),
 		vf(maxExactInt), vf(1<<53), vf(-maxExactInt),
-		vf(math.Inf(1)), vf(math.Inf(-1)), vf(math.NaN()))
+		vf(math.Inf(1)), vf(math.Inf(-1)), vf(math.NaN()),
+		// finite floats outside the int range (2^63 is the first): a conversion to int does not hold them
+		vf(1<<63), vf(1e19), vf(-1e19))
 	if thorough {
 		add(vf(0.5), vf(-1.5), vf(3), vf(math.Nextafter(2, 3)), vf(math.Nextafter(-1, 0)), vf(maxExactInt-1), vf(-(1 << 53)),
 			vf(math.MaxFloat64), vf(math.SmallestNonzeroFloat64), vf(-math.SmallestNonzeroFloat64), vf(1e300))
@@ -332,6 +341,7 @@ func makePool(thorough bool) (pool []*rv, numIdx, strIdx []int, curated int) {
 	add(vl(), vlr("map"), vl(vi(1)), vl(vf(1)), vlr("map", vi(1)), vlr("accept", vi(1)),
 		vl(vi(1), vi(2)), vlr("conv", vi(1), vi(2)), vlr("concat", vf(1), vf(2)), vl(vi(2), vi(1)),
 		vl(vi(1), vi(2), vi(3)), vlr("accept", vi(1), vi(2), vi(3)),
+		vlr("mixed", vi(1)), vlr("mixed", vi(1), vi(2)), vlr("mixedBack", vf(1), vi(2), vi(3)), vlr("mixedBack", vi(1)),
 		vl(vs("a")), vl(vi(1), vs("a")), vl(vs("a"), vi(1)), vlr("map", vs("a"), vi(1)),
 		vl(vb(true)), vl(vf(math.NaN())), vl(id),
 		vl(vl(vi(1)), vl(vi(2))), vlr("map", vlr("accept", vf(1)), vlr("conv", vi(2))), vl(vl(vi(1)), vl(vi(3))),
@@ -372,7 +382,7 @@ func makePool(thorough bool) (pool []*rv, numIdx, strIdx []int, curated int) {
 		}
 	}
 	atoms := []*rv{vi(1), vf(1), vi(2), vs("a"), vb(true), vf(math.NaN()), vl(vi(1)), vlr("map", vf(2)), vm("lit", "a", vi(1))}
-	lreprs := []string{"eager", "conv", "map", "accept", "concat"}
+	lreprs := []string{"eager", "conv", "map", "accept", "concat", "mixed", "mixedBack"}
 	cnt := 0
 	for _, x := range atoms {
 		addNew(vlr(lreprs[cnt%len(lreprs)], x))
